@@ -67,7 +67,12 @@ func stateOf(name string) map[string]any { return map[string]any{"record": name}
 
 func (w *world) authorize(st *harness.MemStore, name, nodeId string) *types.NodeInformation {
 	req := harness.SignedRequest(harness.Info(w.k[name], w.e[name], harness.Bytes("nonce-"+name, 32)), w.k[name])
-	n, err := registration.AuthorizeNode(harness.Ctx, st, req, nodeenrollment.WithState(harness.Struct(stateOf(name))), nodeenrollment.WithRandomReader(harness.DetRand("srv-"+name)))
+	aopt := []nodeenrollment.Option{nodeenrollment.WithRandomReader(harness.DetRand("srv-" + name))}
+	if name != "K2" {
+		// K2's record carries no state: a rotation authenticated by it must yield a record without state too
+		aopt = append(aopt, nodeenrollment.WithState(harness.Struct(stateOf(name))))
+	}
+	n, err := registration.AuthorizeNode(harness.Ctx, st, req, aopt...)
 	if err != nil {
 		panic(err)
 	}
@@ -227,6 +232,21 @@ func (w *world) build(s *state, rq request) (*types.RotateNodeCredentialsRequest
 			return nil, ""
 		}
 		inner, innerKey = mk(fresh, harness.ForgedToken(w.seed), 0), fresh
+	case "compact-token-nonce", "nonce-31-bytes", "nonce-33-bytes":
+		if fresh == "" {
+			return nil, ""
+		}
+		var n []byte
+		switch rq.Inner {
+		case "compact-token-nonce":
+			// a well-formed activation-token nonce shorter than a node nonce
+			n, _ = proto.Marshal(&types.ServerLedActivationTokenNonce{Nonce: harness.Bytes("compact-nonce", 8), HmacKeyBytes: harness.Bytes("compact-key", 8)})
+		case "nonce-31-bytes":
+			n = harness.Bytes("rot-nonce-"+fresh, 31)
+		default:
+			n = harness.Bytes("rot-nonce-"+fresh, 33)
+		}
+		inner, innerKey = mk(fresh, n, 0), fresh
 	case "expired":
 		if fresh == "" {
 			return nil, ""
@@ -490,7 +510,7 @@ func labels(c *engine.Ctx) []string {
 	var out []string
 	srcs := []string{"cur:K1", "prev:K1", "cur:K1b", "cur:K2", "unrelated", "cur:Kn1"}
 	idents := []string{"key:K1", "key:K2", "key:KU", "key:Kn1", "node:X", "node:Z"}
-	inners := []string{"fresh", "registered:K2", "registered:K1", "token-nonce", "expired", "wrong-signer", "garbage"}
+	inners := []string{"fresh", "registered:K2", "registered:K1", "token-nonce", "compact-token-nonce", "nonce-31-bytes", "nonce-33-bytes", "expired", "wrong-signer", "garbage"}
 	for _, s := range srcs {
 		for _, i := range idents {
 			for _, in := range inners {
@@ -499,8 +519,8 @@ func labels(c *engine.Ctx) []string {
 		}
 	}
 	// the honest shapes again with a caller-supplied WithState option
-	for _, s := range []string{"cur:K1", "prev:K1", "cur:Kn1"} {
-		for _, i := range []string{"key:K1", "node:X", "key:Kn1"} {
+	for _, s := range []string{"cur:K1", "prev:K1", "cur:Kn1", "cur:K2"} {
+		for _, i := range []string{"key:K1", "node:X", "key:Kn1", "key:K2"} {
 			out = append(out, request{s, i, "fresh"}.label()+"|caller-state")
 		}
 	}
@@ -596,7 +616,7 @@ func init() {
 	engine.Register(&engine.CheckDef{
 		ID:    "C10",
 		Level: "model_checking",
-		Rule: "BFS (quick depth 3, thorough 4) from 11 initial stores (previous key recorded or not; the superseded record still stored before/after its successor; a second record under the node id before/after the first; NodeIdLoader or plain storage) over rotation requests {encrypting key: current of K1/K1b/K2/new key, recorded previous pair, unrelated} x {identification: key id of K1/K2/unknown/new, node id X, unknown node id} x {inner: fresh key, registered K1/K2, token-sized nonce, expired window, wrong signer, not a request}, the honest shapes again with a caller-supplied WithState option, replays of every honoured payload and removal of old records; every request refused only for an already registered inner key is retried with each single storage operation failing and must stay refused; " +
+		Rule: "BFS (quick depth 3, thorough 4) from 11 initial stores (previous key recorded or not; the superseded record still stored before/after its successor; a second record under the node id before/after the first; NodeIdLoader or plain storage) over rotation requests {encrypting key: current of K1/K1b/K2/new key, recorded previous pair, unrelated} x {identification: key id of K1/K2/unknown/new, node id X, unknown node id} x {inner: fresh key, registered K1/K2, token-sized nonce, compact token nonce, 31- and 33-byte nonces, expired window, wrong signer, not a request}, the honest shapes again with a caller-supplied WithState option (K2's record carries no state, the others do), replays of every honoured payload and removal of old records; every request refused only for an already registered inner key is retried with each single storage operation failing and must stay refused; " +
 			"distinct_nontrivial = canonical states reached (records with node id / previous key / state, and the set of honoured payloads)",
 		Assumptions: []string{"removing the record a rotation created and then replaying that rotation is outside the alphabet (the quantifier lists replay and repeated rotation, not revocation)", "forged = encrypted under another pool key"},
 		Shards:      func(c *engine.Ctx) int { return 11 },
